@@ -599,7 +599,7 @@ func (c02) kv(sc core.Scenario, r *core.R) {
 	}
 	done := make(chan struct{})
 	go func() { wg.Wait(); close(done) }()
-	if !core.WaitCh(done, 4*core.Grace) {
+	if !core.WaitProgress(done, 2*core.Grace, func() int64 { mu.Lock(); defer mu.Unlock(); return int64(len(ops) + errs) }) {
 		r.Violate("response-dropped", "%s: KV workload did not complete: some call never returned; events: %s", tr, core.Log.Tail(30))
 		return
 	}
